@@ -15,7 +15,11 @@ RULE = ('strings: exhaustive token strings over {P,K,B,X,[ ] ( ) { } < > ? - + /
         'grammar-aware decorations of valid strings (a ^n multiplier after every kind of bracket group, two-token '
         'mutations), every vocabulary entry without mass and composition for the deferred clause, '
         'random strings up to 40 tokens, single-token mutations (delete/insert/swap/duplicate) of generated valid '
-        'strings, and 8 positions x a corpus of unresolvable modification values for the deferred clause. '
+        'strings, 10 positions (incl. the ProForma spellings @N-term / @C-term) x a corpus of unresolvable modification '
+        'values for the deferred clause, and 10 positions x 60 malformed values (unbalanced isotope blocks, empty '
+        'values, dangling signs/tags/alternatives) + 31 malformed adduct lists and global rules whose parse, mass and '
+        'comp run under the logical step budget (a loop or a foreign exception is the violation; a lenient numeric '
+        'reading is not judged). '
         'signature = (clause, outcome class, class of first token, class of last token, set of bracket kinds present); '
         'non-trivial = the string contains at least one non-residue token')
 ASSUMPTIONS = ['hangs are decided on logical steps (sys.monitoring LINE events inside peptacular/, budget '
@@ -28,10 +32,27 @@ CLASS = {t: ('R' if t in 'PKBX' else 'N' if t in '12' else 'A' if t == 'Acetyl' 
 
 UNRESOLVABLE = ['INVALID', 'U:INVALID', 'UNIMOD:999999', 'M:nope', 'MOD:99999', 'X:nope', 'Obs:abc', 'INFO:only',
                 'Glycan:Foo', 'Formula:Xx2']
+# malformed values: the statement's outcome classes still apply (no hang, no unrelated exception); whether a lenient
+# reading that returns a number is right is NOT judged here (only hang / foreign exception are violations)
+MALFORMED = ['Formula:[13C2', 'Formula:C2]H', 'Formula:[[C]]', 'Formula:C-', 'Formula:[13C2]]', 'Formula:', 'Glycan:',
+             'Glycan:Hex(', 'Obs:', 'Formula:C2 H', 'U:', 'Formula:[]', 'Formula:C2[', 'Formula:]', 'Formula:[13C',
+             'Glycan:Hex-', 'Glycan:2', 'Formula:2', 'Formula:C2H3.', 'Formula:C--2', 'Obs:+', 'Obs:1e',
+             'Formula:[13C2]H[', 'Glycan:HexNAc(2', 'M:', 'X:', 'R:', 'G:', 'Formula:c2', 'Formula: C2', '+', '-',
+             '+-1', '1.2.3', 'Formula:C2H-', '#g1', 'Acetyl#', '#', 'Acetyl|', '|', 'Acetyl||Phospho', 'Acetyl#g1(',
+             'Acetyl#g1()', 'Acetyl#g1(x)', '', ' ', 'Formula:[]]', 'Formula:][', 'Formula:[C]2]', 'Glycan:Hex]',
+             'Glycan:[Hex]', 'Formula:C2|]', ':', '::', 'Formula::C', 'INFO:', 'Obs:--1', 'Formula:C1e5', 'Formula:C²']
+MALFORMED_TAILS = ['PEPTIDE/2[]', 'PEPTIDE/2[+2]', 'PEPTIDE/2[+]', 'PEPTIDE/2[,]', 'PEPTIDE/2[+2Na+,]', 'PEPTIDE/2[Na]',
+                   'PEPTIDE/2[+1.5Na+]', 'PEPTIDE/2[+Na++]', 'PEPTIDE/2[+Na+-]', 'PEPTIDE/0', 'PEPTIDE/-0',
+                   'PEPTIDE/2[+Na+][+K+]', 'PEPTIDE/2[[+Na+]]', 'PEPTIDE/2[+2]]', '<>PEPTIDE', '<[]@P>PEPTIDE',
+                   '<[Acetyl]@>PEPTIDE', '<[Acetyl]@,>PEPTIDE', '<[Acetyl]@PP>PEPTIDE', '<@P>PEPTIDE',
+                   '<[Acetyl]@P@K>PEPTIDE', '<13C15N>PEPTIDE', '<C>PEPTIDE', '<[Acetyl]>PEPTIDE', '<[Acetyl]@P,>PEPTIDE',
+                   'PEP[Acetyl]^0TIDE', '{+1}^2PEPTIDE', '<[Formula:]C]@P>PEPTIDE', '<[Formula:[[C]]]@P>PEPTIDE',
+                   '<[Acetyl]@N-term:P>PEPTIDE', '<[Acetyl]@n-term,c-term>PEPTIDE']
 POSITIONS = {
     'residue': 'PEP[{v}]TIDE', 'nterm': '[{v}]-PEPTIDE', 'cterm': 'PEPTIDE-[{v}]', 'labile': '{{{v}}}PEPTIDE',
     'unknown': '[{v}]?PEPTIDE', 'interval': 'PE(PT)[{v}]IDE', 'static': '<[{v}]@P>PEPTIDE',
-    'static-nterm': '<[{v}]@N-Term>PEPTIDE',
+    'static-nterm': '<[{v}]@N-Term>PEPTIDE', 'static-nterm-proforma': '<[{v}]@N-term>PEPTIDE',
+    'static-cterm-proforma': '<[{v}]@K,C-term>PEPTIDE',
 }
 
 
@@ -337,6 +358,63 @@ def deferred(ctx, pt):
             ctx.sig(('deferred', pos, s, fn_name), True)
 
 
+def malformed(ctx, pt, obs):
+    """Malformed modification / adduct / rule texts: parse accepts or rejects with a ValueError; if it accepts, mass
+    and comp either return or raise a ValueError-family error - under a logical step budget, so a loop is a verdict."""
+    cases = [(pos, tmpl.format(v=v)) for pos, tmpl in POSITIONS.items() for v in MALFORMED]
+    cases += [('tail', s) for s in MALFORMED_TAILS]
+    for i, (pos, s) in enumerate(cases):
+        if ctx.mine(i):
+            malformed_one(ctx, pt, obs, pos, s)
+
+
+def malformed_one(ctx, pt, obs, pos, s):
+    for _once in (1,):
+        ctx.begin({'clause': 'malformed', 'string': s, 'position': pos})
+        try:
+            obs.begin_call(20000 + 2000 * len(s))
+            try:
+                pt.parse(s)
+            finally:
+                obs.end_call()
+        except StepBudgetExceeded:
+            ctx.decided()
+            ctx.violation('parse-hangs', {'string': s})
+            continue
+        except ValueError:
+            ctx.decided()
+            ctx.sig(('malformed', pos, 'rejected'), True)
+            continue
+        except ChunkTimeout:
+            raise
+        except BaseException as e:
+            ctx.decided()
+            ctx.violation('parse-raises-' + type(e).__name__, {'string': s, 'exception': type(e).__name__})
+            continue
+        for fn_name in ('mass', 'comp'):
+            out = 'returned'
+            try:
+                obs.begin_call(400000)
+                try:
+                    getattr(pt, fn_name)(s)
+                finally:
+                    obs.end_call()
+            except StepBudgetExceeded:
+                out = 'hang'
+            except ValueError:
+                out = 'ValueError'
+            except ChunkTimeout:
+                raise
+            except BaseException as e:
+                out = 'crash:' + type(e).__name__
+            ctx.decided()
+            if out == 'hang':
+                ctx.violation('malformed-mod-' + fn_name + '-hangs', {'string': s, 'function': fn_name})
+            elif out.startswith('crash:'):
+                ctx.violation('malformed-mod-wrong-exception', {'string': s, 'function': fn_name, 'exception': out[6:]})
+            ctx.sig(('malformed', pos, fn_name, out), True)
+
+
 def run(ctx):
     import peptacular as pt
     st = State(ctx)
@@ -358,6 +436,7 @@ def run(ctx):
         try:
             run_strings(ctx, st, pt, exhaustive(ctx, 3), 'total-stepbudget', lines)
             run_strings(ctx, st, pt, random_strings(ctx, ctx.n(4000, 40000)), 'total-stepbudget', lines)
+            malformed(ctx, pt, lines)
         finally:
             lines.stop()
         ctx.extra['max_line_events_per_call'] = lines.max_steps_seen
@@ -371,6 +450,14 @@ def replay(ctx, case):
     st = State(ctx)
     install(ctx, st)
     s = case['string']
+    if case.get('clause') == 'malformed':
+        lines = Observers()
+        if lines.start(raises=False, reach=False, lines=True):
+            try:
+                malformed_one(ctx, pt, lines, case.get('position', 'tail'), s)
+            finally:
+                lines.stop()
+        return
     if case.get('clause') == 'deferred':
         try:
             r = getattr(pt, case['function'])(s)
